@@ -371,7 +371,7 @@ def gen_config(rng, scratch, small=False):
     supenv = None
     if rng.random() < 0.5:
         supenv = rng.choice(['GLOBAL="sup"', 'GLOBAL=sup,A="fromsup"', 'S1=x,S2="%(here)s"',
-                             'A=%(ENV_VERIF_A)s', 'PATH="/sbin"'])
+                             'A=%(ENV_VERIF_A)s', 'PATH="/sbin"', 'PCT="100%%",URI="/a%%20b"'])
         sup.append(('environment', supenv))
     for key, vals in (('minfds', ['1024', '2048']), ('minprocs', ['200', '50']), ('umask', ['022', '077']),
                       ('logfile_maxbytes', ['50MB', '1KB']), ('logfile_backups', ['10', '0']), ('identifier', ['supervisor', 'sv2']),
@@ -575,7 +575,7 @@ def corruptions(rng, cfg, per_class=1, everything=False):
                 c = rng.choice('%()=,"\' \t;#:/\\0x~é')
                 res.append(('char-flip:%s@%d=%r' % (k, pos, c), None, _with(secs, si, _set(opts, k, v[:pos] + c + v[pos + 1:]))))
                 res.append(('truncate:%s@%d' % (k, pos), None, _with(secs, si, _set(opts, k, v[:pos]))))
-        res.append(('stopsignal-zero', 'signal0', _with(secs, si, _set(opts, 'stopsignal', rng.choice(['0', '_DFL', 'SIG_BLOCK'])))))
+        res.append(('stopsignal-zero', True, _with(secs, si, _set(opts, 'stopsignal', rng.choice(['0', '_DFL', 'SIG_BLOCK'])))))
     # listeners
     for si in [i for i, (s, _) in enumerate(secs) if s.startswith('eventlistener:')][:1]:
         sname, opts = secs[si]
